@@ -531,6 +531,7 @@ pub mod std {
     pub use ::std::borrow;
     pub use ::std::path;
     pub use ::std::ffi;
+    pub use ::std::sync;
 
     /// Waiting primitives (C06 C20): no operation of the crate ever waits for time to pass or for another
     /// participant.  The stand-ins can never be called: their precondition is `false`.
